@@ -310,7 +310,7 @@ theorem goForFind_position_bwd (L : GoLoop) (hL : L.IsAllBwd) (p : α → Bool) 
     (s e : Int) :
     ∀ (j fuel : Nat), j ≤ w.length → j < fuel →
       goForFind L w.length s e (goPositionBody p w ret s) fuel ((j : Int) - 1)
-        = some ((idxLast p (w.take j)).map (fun r => ret (r : Int) s)) := by
+        = some ((idxLast p (w.take j)).map (fun r : Nat => ret (r : Int) s)) := by
   intro j
   induction j with
   | zero =>
